@@ -1,3 +1,11 @@
+import Mathlib.Tactic.IntervalCases
+import Mathlib.Data.List.Nodup
+import Mathlib.Tactic.NormNum
+import Mathlib.Tactic.Zify
+import Mathlib.Algebra.BigOperators.Group.List.Basic
+import Mathlib.Data.List.Range
+import Mathlib.Data.List.Perm.Subperm
+import Mathlib.Data.List.Count
 import KoalaVerif.Model.Gen10
 import KoalaVerif.Generated.Kernels
 import KoalaVerif.Generated.Tables
@@ -191,5 +199,203 @@ theorem tile_in_range (k : Nat) (ue : List (Nat × Nat)) (uc : List (Int × Int)
 example : (G10.tile 4 GenT.trinon_edges GenT.trinon_crossing 2 3).length = 2 * 3 * 6 := by decide
 example : G10.nVertical 2 = 1 ∧ G10.nVertical 3 = 2 ∧ G10.nVertical 16 = 9 := by decide
 example : crossing 3 2 2 1 0 = (1, 0) ∧ next_cell_number 3 2 2 1 0 = 0 ∧ crossing 3 2 0 (-1) (-1) = (-1, -1) := by decide
+
+/-! ### the honeycomb generator is trivalent for every size -/
+
+section Honeycomb
+open G10
+
+/-- number of edge ends at vertex `v` -/
+def degIn (es : ECs) (v : Nat) : Nat := (es.map (·.1.1)).count v + (es.map (·.1.2)).count v
+
+theorem degIn_append (a b : ECs) (v : Nat) : degIn (a ++ b) v = degIn a v + degIn b v := by
+  unfold degIn; simp only [List.map_append, List.count_append]; omega
+
+/-- translation by a fixed shift permutes the cells -/
+theorem nc_perm (nh nv : Nat) (hh : 0 < nh) (hv : 0 < nv) (s0 s1 : Int) :
+    ((cells nh nv).map fun n => nc nh nv n s0 s1).Perm (cells nh nv) := by
+  have hH : (0 : Int) < nh := by exact_mod_cast hh
+  have hV : (0 : Int) < nv := by exact_mod_cast hv
+  have hlt : ∀ n, nc nh nv n s0 s1 < nh * nv := by
+    intro n
+    have := (next_cell_range (nh : Int) nv n s0 s1 hH hV)
+    unfold nc
+    rw [nextCell_eq_translated]
+    have h2 := this.2
+    have h1 := this.1
+    have : ((Gen.next_cell_number (↑nh) (↑nv) (↑n) s0 s1).toNat : Int) < ((nh * nv : Nat) : Int) := by
+      rw [Int.toNat_of_nonneg h1]; push_cast; exact h2
+    exact_mod_cast this
+  have hinj : ∀ a ∈ cells nh nv, ∀ b ∈ cells nh nv, nc nh nv a s0 s1 = nc nh nv b s0 s1 → a = b := by
+    intro a ha b hb hab
+    unfold cells at ha hb
+    rw [List.mem_range] at ha hb
+    have ha' : ((a : Nat) : Int) < (nh : Int) * nv := by exact_mod_cast ha
+    have hb' : ((b : Nat) : Int) < (nh : Int) * nv := by exact_mod_cast hb
+    have ia := next_cell_inverse (nh : Int) nv a s0 s1 hH hV (by exact_mod_cast Nat.zero_le a) ha'
+    have ib := next_cell_inverse (nh : Int) nv b s0 s1 hH hV (by exact_mod_cast Nat.zero_le b) hb'
+    have hz : nextCell nh nv a s0 s1 = nextCell nh nv b s0 s1 := by
+      have ra := (next_cell_range (nh : Int) nv a s0 s1 hH hV).1
+      have rb := (next_cell_range (nh : Int) nv b s0 s1 hH hV).1
+      unfold nc at hab
+      rw [nextCell_eq_translated, nextCell_eq_translated] at hab ⊢
+      have := congrArg (fun x : Nat => (x : Int)) hab
+      simp only [Int.toNat_of_nonneg ra, Int.toNat_of_nonneg rb] at this
+      exact this
+    rw [nextCell_eq_translated, nextCell_eq_translated] at hz
+    rw [hz] at ia
+    have : (a : Int) = b := ia.symm.trans ib
+    exact_mod_cast this
+  have hnd : ((cells nh nv).map fun n => nc nh nv n s0 s1).Nodup :=
+    (List.nodup_map_iff_inj_on (List.nodup_range)).mpr hinj
+  have hsub : ((cells nh nv).map fun n => nc nh nv n s0 s1) ⊆ cells nh nv := by
+    intro x hx
+    obtain ⟨n, _, rfl⟩ := List.mem_map.mp hx
+    exact List.mem_range.mpr (hlt n)
+  exact (hnd.subperm hsub).perm_of_length_le (by simp [cells])
+
+theorem count_cells (nh nv n0 : Nat) (h : n0 < nh * nv) : (cells nh nv).count n0 = 1 :=
+  List.count_eq_one_of_mem List.nodup_range (List.mem_range.mpr h)
+
+/-- the number of cells `n` with `f n = v`, for `f` injective with a prescribed preimage -/
+theorem count_map_affine (l : List Nat) (a b v : Nat) (ha : 0 < a) :
+    (l.map fun n => b + a * n).count v = if b ≤ v ∧ (v - b) % a = 0 then l.count ((v - b) / a) else 0 := by
+  induction l with
+  | nil => simp
+  | cons x xs ih =>
+    simp only [List.map_cons, List.count_cons, ih]
+    by_cases hc : b ≤ v ∧ (v - b) % a = 0
+    · simp only [hc, and_self, if_true]
+      congr 1
+      obtain ⟨h1, h2⟩ := hc
+      have hdiv : a * ((v - b) / a) = v - b := Nat.mul_div_cancel' (Nat.dvd_of_mod_eq_zero h2)
+      by_cases hx : b + a * x = v
+      · have hxe : x = (v - b) / a := by
+          have : a * x = v - b := by omega
+          rw [← this, Nat.mul_div_cancel_left _ ha]
+        have e1 : (b + a * x == v) = true := by simpa using hx
+        have e2 : (x == (v - b) / a) = true := by simpa using hxe
+        rw [if_pos e1, if_pos e2]
+      · have hxe : ¬ (x = (v - b) / a) := by
+          intro h; apply hx; rw [h, hdiv]; omega
+        have e1 : ¬ ((b + a * x == v) = true) := by simpa using hx
+        have e2 : ¬ ((x == (v - b) / a) = true) := by simpa using hxe
+        rw [if_neg e1, if_neg e2]
+    · simp only [hc, if_false, Nat.zero_add]
+      have : ¬ (b + a * x = v) := by
+        intro h; apply hc
+        refine ⟨by omega, ?_⟩
+        have : v - b = a * x := by omega
+        rw [this, Nat.mul_mod_right]
+      simp [this]
+
+
+theorem count_flatMap3 (l : List Nat) (f g h : Nat → Nat) (v : Nat) :
+    (l.flatMap fun n => [f n, g n, h n]).count v = (l.map f).count v + (l.map g).count v + (l.map h).count v := by
+  induction l with
+  | nil => simp
+  | cons x xs ih =>
+    simp only [List.flatMap_cons, List.count_append, List.map_cons, List.count_cons, ih, List.count_nil]
+    omega
+
+/-- ends at vertex `4q + k` contributed by a family whose ends are `b + 4·(cell)`, the cells running through a
+    permutation of all cells: one if `b = k`, none otherwise -/
+theorem cnt (nh nv : Nat) (l : List Nat) (hl : l.Perm (cells nh nv)) (b q k : Nat) (hq : q < nh * nv) (hk : k < 4) (hb : b < 4) :
+    (l.map fun n => b + 4 * n).count (4 * q + k) = if b = k then 1 else 0 := by
+  rw [count_map_affine l 4 b (4 * q + k) (by decide)]
+  by_cases hbk : b = k
+  · subst hbk
+    have h1 : b ≤ 4 * q + b ∧ (4 * q + b - b) % 4 = 0 := ⟨by omega, by omega⟩
+    have h2 : (4 * q + b - b) / 4 = q := by omega
+    rw [if_pos h1, h2, if_pos rfl, hl.count_eq, count_cells nh nv q hq]
+  · have h1 : ¬ (b ≤ 4 * q + k ∧ (4 * q + k - b) % 4 = 0) := by
+      rintro ⟨h, h'⟩; omega
+    rw [if_neg h1, if_neg hbk]
+
+/-- **C10 (honeycomb, every size)**: every one of the `4·n_h·n_v` vertices of `honeycomb_lattice` has exactly three edge
+    ends — the lattice is trivalent for all sizes -/
+theorem honeycomb_trivalent (nh nv : Nat) (hh : 0 < nh) (hv : 0 < nv) (v : Nat) (hvlt : v < 4 * (nh * nv)) :
+    degIn (honeycomb nh nv) v = 3 := by
+  obtain ⟨q, k, hk, rfl⟩ : ∃ q k, k < 4 ∧ v = 4 * q + k := ⟨v / 4, v % 4, Nat.mod_lt _ (by decide), by omega⟩
+  have hq : q < nh * nv := by omega
+  have pid : (cells nh nv).Perm (cells nh nv) := List.Perm.refl _
+  have p10 := nc_perm nh nv hh hv 1 0
+  have p01 := nc_perm nh nv hh hv 0 1
+  have p11 := nc_perm nh nv hh hv 1 1
+  unfold honeycomb
+  simp only [degIn_append]
+  unfold degIn
+  simp only [List.map_flatMap, List.map_map, List.map_cons, List.map_nil, Function.comp_def]
+  rw [count_flatMap3, count_flatMap3]
+  -- bring every family into the form `b + 4 * (cell)`
+  have a1 : ((cells nh nv).map fun n => 4 * n) = (cells nh nv).map fun n => 0 + 4 * n := by
+    apply List.map_congr_left; intro n _; omega
+  have a2 : ((cells nh nv).map fun n => 4 * n + 2) = (cells nh nv).map fun n => 2 + 4 * n := by
+    apply List.map_congr_left; intro n _; omega
+  have a3 : ((cells nh nv).map fun n => 4 * n + 1) = (cells nh nv).map fun n => 1 + 4 * n := by
+    apply List.map_congr_left; intro n _; omega
+  have a4 : ((cells nh nv).map fun n => 4 * n + 3) = (cells nh nv).map fun n => 3 + 4 * n := by
+    apply List.map_congr_left; intro n _; omega
+  have b1 : ((cells nh nv).map fun n => 1 + 4 * nc nh nv n 1 0) = ((cells nh nv).map fun n => nc nh nv n 1 0).map fun m => 1 + 4 * m := by
+    rw [List.map_map]; rfl
+  have c1 : ((cells nh nv).map fun n => 4 * nc nh nv n 0 1) = ((cells nh nv).map fun n => nc nh nv n 0 1).map fun m => 0 + 4 * m := by
+    rw [List.map_map]; apply List.map_congr_left; intro n _; simp
+  have d1 : ((cells nh nv).map fun n => 4 * nc nh nv n 1 1) = ((cells nh nv).map fun n => nc nh nv n 1 1).map fun m => 0 + 4 * m := by
+    rw [List.map_map]; apply List.map_congr_left; intro n _; simp
+  rw [a1, a2, a3, a4, b1, c1, d1]
+  rw [cnt nh nv _ pid 0 q k hq hk (by decide), cnt nh nv _ pid 2 q k hq hk (by decide), cnt nh nv _ pid 1 q k hq hk (by decide),
+    cnt nh nv _ pid 3 q k hq hk (by decide), cnt nh nv _ p10 1 q k hq hk (by decide), cnt nh nv _ p01 0 q k hq hk (by decide),
+    cnt nh nv _ p11 0 q k hq hk (by decide)]
+  interval_cases k <;> simp
+
+theorem count_flatMap6 (l : List Nat) (f1 f2 f3 f4 f5 f6 : Nat → Nat) (v : Nat) :
+    (l.flatMap fun n => [f1 n, f2 n, f3 n, f4 n, f5 n, f6 n]).count v
+      = (l.map f1).count v + (l.map f2).count v + (l.map f3).count v + (l.map f4).count v + (l.map f5).count v + (l.map f6).count v := by
+  induction l with
+  | nil => simp
+  | cons x xs ih =>
+    simp only [List.flatMap_cons, List.count_append, List.map_cons, List.count_cons, ih, List.count_nil]
+    omega
+
+/-- as `cnt`, for six sites per cell -/
+theorem cnt6 (n : Nat) (l : List Nat) (hl : l.Perm (cells n n)) (b q k : Nat) (hq : q < n * n) (hk : k < 6) (hb : b < 6) :
+    (l.map fun c => b + 6 * c).count (6 * q + k) = if b = k then 1 else 0 := by
+  rw [count_map_affine l 6 b (6 * q + k) (by decide)]
+  by_cases hbk : b = k
+  · subst hbk
+    have h1 : b ≤ 6 * q + b ∧ (6 * q + b - b) % 6 = 0 := ⟨by omega, by omega⟩
+    have h2 : (6 * q + b - b) / 6 = q := by omega
+    rw [if_pos h1, h2, if_pos rfl, hl.count_eq, count_cells n n q hq]
+  · have h1 : ¬ (b ≤ 6 * q + k ∧ (6 * q + k - b) % 6 = 0) := by
+      rintro ⟨h, h'⟩; omega
+    rw [if_neg h1, if_neg hbk]
+
+/-- **C10 (hex-square-oct, every size)**: every one of the `6·n²` vertices of `hex_square_oct_lattice(n)` has exactly three
+    edge ends -/
+theorem hso_trivalent (n : Nat) (hn : 0 < n) (v : Nat) (hvlt : v < 6 * (n * n)) : degIn (hso n) v = 3 := by
+  obtain ⟨q, k, hk, rfl⟩ : ∃ q k, k < 6 ∧ v = 6 * q + k := ⟨v / 6, v % 6, Nat.mod_lt _ (by decide), by omega⟩
+  have hq : q < n * n := by omega
+  have pid : (cells n n).Perm (cells n n) := List.Perm.refl _
+  have p10 := nc_perm n n hn hn 1 0
+  have p01 := nc_perm n n hn hn 0 1
+  unfold hso
+  simp only [degIn_append]
+  unfold degIn
+  simp only [List.map_flatMap, List.map_map, List.map_cons, List.map_nil, Function.comp_def]
+  rw [count_flatMap6, count_flatMap6]
+  have e0 : ((cells n n).map fun c => 0 + 6 * c) = (cells n n).map fun c => 0 + 6 * c := rfl
+  have n2 : ((cells n n).map fun c => 2 + 6 * nc n n c 1 0) = ((cells n n).map fun c => nc n n c 1 0).map fun m => 2 + 6 * m := by
+    rw [List.map_map]; rfl
+  have n1 : ((cells n n).map fun c => 1 + 6 * nc n n c 1 0) = ((cells n n).map fun c => nc n n c 1 0).map fun m => 1 + 6 * m := by
+    rw [List.map_map]; rfl
+  have n0 : ((cells n n).map fun c => 6 * nc n n c 0 1) = ((cells n n).map fun c => nc n n c 0 1).map fun m => 0 + 6 * m := by
+    rw [List.map_map]; apply List.map_congr_left; intro c _; simp
+  rw [n2, n1, n0]
+  simp only [cnt6 n _ pid _ q k hq hk (by decide : 0 < 6), cnt6 n _ pid _ q k hq hk (by decide : 1 < 6), cnt6 n _ pid _ q k hq hk (by decide : 2 < 6),
+    cnt6 n _ pid _ q k hq hk (by decide : 3 < 6), cnt6 n _ pid _ q k hq hk (by decide : 4 < 6), cnt6 n _ pid _ q k hq hk (by decide : 5 < 6),
+    cnt6 n _ p10 2 q k hq hk (by decide), cnt6 n _ p10 1 q k hq hk (by decide), cnt6 n _ p01 0 q k hq hk (by decide)]
+  interval_cases k <;> simp
+
+end Honeycomb
 
 end C10
